@@ -58,7 +58,9 @@ def role_tangent(chk, inst, ret, where):
         if tg in (C(None),):
             continue
         n += 1
-        chk.require(role(tg) != "P", "ROLE-TANGENT", f"{inst}/Dual-tangent", "tangent field of a returned Dual", derived=f"{show(tg)[:160]} (role {role(tg)})", expected="tangent-derived", where=where)
+        monos = lin(tg)
+        bad = [m for m in monos if m and role(("tuple", tuple(m))) == "P"]
+        chk.require(role(tg) != "P" and not bad, "ROLE-TANGENT", f"{inst}/Dual-tangent", "tangent field of a returned Dual", derived=f"{show(tg)[:160]} (role {role(tg)}; primal-only addends: {[show_lin({m: 1}) for m in bad][:2]})", expected="every addend tangent-derived", where=where)
     return n
 
 
